@@ -7,6 +7,10 @@ EXTENDS ParallelLoad, TLC, Json
 
 CONSTANT Emit
 
+HdrIdentity == {[c \in Containers |-> c]}
+\* every assignment of header numbers, including two or three object streams that claim the same number
+HdrAll == [Containers -> Containers]
+
 Init == PLInit
 TakeS == \E w \in Workers, e \in Entries : Take(w, e)
 FinishS == \E w \in Workers : Finish(w)
